@@ -27,14 +27,16 @@ Theorem C02_link_failure_fanout : forall s s' o, step s ELinkErr = Some (s', o) 
 Proof. exact link_error_fanout. Qed.
 Print Assumptions C02_link_failure_fanout.
 
-(* every close_link produces exactly one disconnected, in every state *)
-Theorem C02_close_fanout : forall s,
+(* every close_link produces exactly one disconnected, in every state (not inside another thread's connect()) *)
+Theorem C02_close_fanout : forall s, opening s = false ->
   exists s', step s EClose = Some (s', [Disconnected]) /\ st s' = DISCONNECTED /\ link s' = false.
 Proof. exact close_fanout. Qed.
 Print Assumptions C02_close_fanout.
 
-Theorem C02_open_fanout : forall s ok s' o, step s (EOpen ok) = Some (s', o) ->
-  o = if ok then [Requested] else [Requested; Failed].
+(* open_link: connection_requested on entry; connection_failed when no usable driver is found *)
+Theorem C02_open_fanout : forall s s1 o1 ok s2 o2,
+  step s EOpenBegin = Some (s1, o1) -> step s1 (EOpenEnd ok) = Some (s2, o2) ->
+  o1 = [Requested] /\ o2 = (if ok then [] else [Failed]) /\ link s2 = ok.
 Proof. exact open_fanout. Qed.
 Print Assumptions C02_open_fanout.
 
@@ -48,30 +50,32 @@ Proof. exact setup_callbacks_only_when_enabled. Qed.
 Print Assumptions C02_setup_callbacks_only_when_enabled.
 
 (* after any link error or close the same object can connect again, completely *)
-Theorem C02_reconnect : forall s e s1 o, (e = ELinkErr \/ e = EClose) -> step s e = Some (s1, o) ->
-  exists s2, run s1 [EOpen true; EPacket; ETocs; EParams] = Some (s2, [Requested; Established; Connected; Fully]).
+Theorem C02_reconnect : forall s e s1 o, opening s = false ->
+  (e = ELinkErr \/ e = EClose) -> step s e = Some (s1, o) ->
+  exists s2, run s1 [EOpenBegin; EOpenEnd true; EPacket; ETocs; EParams] =
+             Some (s2, [Requested; Established; Connected; Fully]).
 Proof.
-  intros s e s1 o He Hs. destruct (disconnect_events_reach_disconnected s e s1 o He Hs) as [H1 H2].
-  exact (reconnect_after_disconnect s1 H1 H2).
+  intros s e s1 o Ho He Hs. destruct (disconnect_events_reach_disconnected s e s1 o Ho He Hs) as (H1 & H2 & H3).
+  exact (reconnect_after_disconnect s1 H1 H2 H3).
 Qed.
 Print Assumptions C02_reconnect.
 
 (* a blocking SyncCrazyflie.open_link is still blocked only while the attempt itself is pending ... *)
-Theorem C02_sync_open_blocked_only_while_pending : forall s ok evs s' o,
-  link s = false -> forallb no_open evs = true ->
-  run s (EOpen ok :: evs) = Some (s', o) ->
+Theorem C02_sync_open_blocked_only_while_pending : forall s evs s' o,
+  forallb no_open evs = true ->
+  run s (EOpenBegin :: evs) = Some (s', o) ->
   sync_run SyOpening o = SyOpening -> pending s' = true.
 Proof. exact sync_open_blocked_only_while_pending. Qed.
 Print Assumptions C02_sync_open_blocked_only_while_pending.
 
-(* ... and the first link error, close, or table completion ends the wait (returns or raises) *)
+(* ... and the first link error, close, failed driver lookup or table completion ends the wait (returns or raises) *)
 Theorem C02_sync_open_returns : forall s e s' o, pending s = true -> step s e = Some (s', o) ->
-  (e = ELinkErr \/ e = EClose \/ (e = ETocs /\ st s = CONNECTED)) ->
+  (e = ELinkErr \/ e = EClose \/ e = EOpenEnd false \/ (e = ETocs /\ st s = CONNECTED)) ->
   sync_run SyOpening o <> SyOpening.
 Proof. exact pending_ends. Qed.
 Print Assumptions C02_sync_open_returns.
 
-Theorem C02_sync_close_returns : forall s,
+Theorem C02_sync_close_returns : forall s, opening s = false ->
   exists s', step s EClose = Some (s', [Disconnected]) /\ sync_run SyClosing [Disconnected] = SyIdle.
 Proof. exact sync_close_returns. Qed.
 Print Assumptions C02_sync_close_returns.
